@@ -9,7 +9,7 @@
    lookup in that state.  The only hypothesis, `shadow_wf w`, says that the parent loader binds a type under
    the key of its name (checked on every case of the correspondence run). *)
 From Coq Require Import ZArith NArith Bool List String Ascii Lia.
-From PcoreV Require Import Model.Base Model.FileLoader Model.FileLoaderText Proofs.FileLoaderProofs Proofs.FileLoaderTextProofs Proofs.FileLoaderIff Proofs.FileLoaderMember.
+From PcoreV Require Import Model.Base Model.FileLoader Model.FileLoaderText Proofs.FileLoaderProofs Proofs.FileLoaderTextProofs Proofs.FileLoaderIff Proofs.FileLoaderMember Proofs.FileLoaderMemberG.
 Import ListNotations.
 Local Open Scope nat_scope.
 
@@ -220,6 +220,61 @@ Theorem C15_typeset_member_never_missed_dec :
     member_claim_b w i (norm_name name) = true -> o <> ONotFound.
 Proof. exact member_claim_not_missed. Qed.
 Print Assumptions C15_typeset_member_never_missed_dec.
+
+(* ---- the same with a weaker guard (depth pass 7, Proofs/FileLoaderMemberG.v) ------------------------------------ *)
+(* `member_claim_ok w i k` = `sole_claimant3 w i k` (the first three conditions of sole_claimant: no loader has a file at the
+   path derived from k, no TypeSet file of another loader declares a member named k, the parent does not bind k)
+   OR some consulted loader has a well-formed definition file for k at the path derived from it (a name that is both a
+   TypeSet member and a file).  The fourth condition of sole_claimant (no TypeSet file of loader i declares a member
+   named like the TypeSet kd) is GONE: a TypeSet that has its own file and is also a member of another TypeSet of the
+   same loader.  There the other TypeSet may bind kd as its member over the placeholder of the instantiation of kd's own
+   file; the invariant is weakened to "(i, kd) holds a TYPESET value => (i, k) holds a value", and the relation between
+   the overwritten placeholder and the instantiation in progress is Q3: "a computation that ends without error ends with a
+   non-TypeSet value in (i, kd) only if it started with one or with a placeholder there" - the instantiation that set the
+   placeholder ends by binding the TypeSet value, which fails (redefinition) over the member value; so between the
+   operations of an error-free run (i, kd) never holds a non-TypeSet value (C15_typeset_file_wins). *)
+Theorem C15_typeset_member_never_missed_claimed :
+  forall w fuel ops ctx name s' o rd i kd,
+    members_wf w -> clean_run w fuel ops -> lookup_after w fuel ops ctx name = (s', (o, rd)) ->
+    ts_member w i kd (norm_name name) -> routed w i kd -> routed w i (norm_name name) ->
+    consulted w (norm_name name) i -> consulted w kd i -> member_claim_ok w i (norm_name name) ->
+    o <> ONotFound.
+Proof. exact member_not_missed_g. Qed.
+Print Assumptions C15_typeset_member_never_missed_claimed.
+
+Theorem C15_typeset_member_found_claimed :
+  forall w fuel ops ctx name s' o rd i kd,
+    shadow_wf w -> members_wf w -> clean_run w fuel ops ->
+    lookup_after w fuel ops ctx name = (s', (o, rd)) -> clean_out (o, rd) = true ->
+    ts_member w i kd (norm_name name) -> routed w i kd -> routed w i (norm_name name) ->
+    consulted w (norm_name name) i -> consulted w kd i -> member_claim_ok w i (norm_name name) ->
+    exists v, o = OFound v /\ tv_name v = norm_name name.
+Proof. exact member_found_g. Qed.
+Print Assumptions C15_typeset_member_found_claimed.
+
+(* the guard of the old theorem implies the new one *)
+Theorem C15_sole_claimant_is_claim_ok :
+  forall w i kd k, sole_claimant w i kd k -> member_claim_ok w i k.
+Proof. intros w i kd k H. left. exact (sole_claimant_3 w i kd k H). Qed.
+Print Assumptions C15_sole_claimant_is_claim_ok.
+
+(* in the state reached by an error-free run, the entry of loader i for the name of its TypeSet file holds nothing, or
+   the TypeSet - never the member value that another TypeSet of the loader declares under the same name *)
+Theorem C15_typeset_file_wins :
+  forall w fuel ops i kd k v,
+    members_wf w -> clean_run w fuel ops ->
+    ts_member w i kd k -> routed w i kd -> routed w i k -> consulted w k i -> consulted w kd i -> sole_claimant3 w i k ->
+    get_entry (reach w fuel ops) i kd = Some (Some v) -> tv_ts v = true.
+Proof. exact typeset_entry_is_typeset. Qed.
+Print Assumptions C15_typeset_file_wins.
+
+(* the decidable reading, evaluated by the correspondence run on the observed outcomes (mem_ok3_from / c15_mem_ok) *)
+Theorem C15_typeset_member_never_missed_claimed_dec :
+  forall w fuel ops ctx name s' o rd i,
+    members_wf w -> clean_run w fuel ops -> lookup_after w fuel ops ctx name = (s', (o, rd)) ->
+    member_claim3_b w i (norm_name name) = true -> o <> ONotFound.
+Proof. exact member_claim3_not_missed. Qed.
+Print Assumptions C15_typeset_member_never_missed_claimed_dec.
 
 (* ---- a chain of file-based loaders: a binding of a loader up the chain is found through the loaders below ------ *)
 (* Loaders 0 .. length-1, the parent of loader i is loader i+1 (TopChain; the top loader, through which the lookup
@@ -610,4 +665,47 @@ Proof.
   split; [vm_compute; reflexivity|]. split; [vm_compute; reflexivity|]. split; [vm_compute; reflexivity|].
   split; [eexists; eexists; vm_compute; reflexivity|]. split; [vm_compute; reflexivity|].
   split; vm_compute; reflexivity.
+Qed.
+
+(* non-vacuity of the theorems without the fourth guard: corpus world member-and-file-1 (global loader, types/a.pp = TypeSet A
+   {B, D}, types/a/b.pp = TypeSet A::B {C}): A::B::C is a member of the TypeSet file of A::B, whose name is also a member of A.
+   The old guard rejects the name, the new one accepts it.  TypeSet A first: error-free, A::B is the FILE's TypeSet, the member
+   is found.  A::B::C first: the member value of A is written over the placeholder of a::b and the instantiation of
+   types/a/b.pp fails with the redefinition error (the history is not error-free; the entry then holds the member value). *)
+Definition ex_maf : world :=
+  {| w_top := TopSingle;
+     w_mods := [ {| m_name := [];
+                    m_walk := [ ex_file "types" true CNoDef 0;
+                                ex_file "types/a" true CNoDef 0;
+                                ex_file "types/a/b.pp" false (CTypeSet (s "A::B") [s "C"]) 20;
+                                ex_file "types/a.pp" false (CTypeSet (s "A") [s "B"; s "D"]) 10 ] |} ];
+     w_shadow := [] |}.
+
+Example C15_example_member_claimed :
+  let k := norm_name (s "A::B::C") in let kd := norm_name (s "A::B") in
+  members_wf ex_maf /\
+  member_claim_b ex_maf 0 k = false /\ member_claim3_b ex_maf 0 k = true /\
+  ts_member ex_maf 0 kd k /\ sole_claimant3 ex_maf 0 k /\ ~ sole_claimant ex_maf 0 kd k /\
+  clean_run ex_maf 8 [OpLoad (-1) (s "A"); OpLoad 0 (s "A::D")] /\
+  get_entry (reach ex_maf 8 [OpLoad (-1) (s "A"); OpLoad 0 (s "A::D")]) 0 kd = Some (Some {| tv_name := kd; tv_marker := 0; tv_ts := true |}) /\
+  fst (snd (lookup_after ex_maf 8 [OpLoad (-1) (s "A"); OpLoad 0 (s "A::D")] 1 (s "a::b::C")))
+    = OFound {| tv_name := k; tv_marker := 21; tv_ts := false |} /\
+  run ex_maf 8 [OpLoad (-1) (s "A::B::C"); OpLoad (-1) (s "A::B")]
+    = [ (OErr ERedefineType, [(0, s "types/a/b.pp"); (0, s "types/a.pp")]);
+        (OFound {| tv_name := kd; tv_marker := 11; tv_ts := false |}, []) ] /\
+  mem_ok3_from ex_maf [OpLoad (-1) (s "A"); OpLoad 0 (s "A::B::C")]
+               [(OFound {| tv_name := s "a"; tv_marker := 0; tv_ts := true |}, [(0, s "types/a.pp"); (0, s "types/a/b.pp")]); (ONotFound, [])] = false /\
+  mem_ok_from ex_maf [OpLoad (-1) (s "A"); OpLoad 0 (s "A::B::C")]
+               [(OFound {| tv_name := s "a"; tv_marker := 0; tv_ts := true |}, [(0, s "types/a.pp"); (0, s "types/a/b.pp")]); (ONotFound, [])] = true.
+Proof.
+  cbv zeta. split; [apply members_wf_b_true; vm_compute; reflexivity|].
+  split; [vm_compute; reflexivity|]. split; [vm_compute; reflexivity|].
+  split; [apply ts_member_b_true; vm_compute; reflexivity|].
+  split; [apply sole3_b_true; vm_compute; reflexivity|].
+  split.
+  { intros (_ & _ & _ & G4).
+    apply (G4 (s "types/a.pp") (ex_file "types/a.pp" false (CTypeSet (s "A") [s "B"; s "D"]) 10) (s "A") [s "B"; s "D"] (s "B"));
+      [vm_compute; reflexivity|reflexivity|left; reflexivity|vm_compute; reflexivity]. }
+  split; [unfold clean_run; vm_compute; reflexivity|].
+  repeat split; vm_compute; reflexivity.
 Qed.
